@@ -113,6 +113,7 @@ struct Ctx
     CollectionStateStore<ParticleStateData, MemSpace::host> pstate;
     std::vector<std::unique_ptr<GeoCtx>> geos;
     std::shared_ptr<RZMapFieldParams> rz_cms;
+    RZMapFieldInput rz_cms_input;  // as read (native units)
     double rz_cms_bmax = 0;  // largest |B| on the map nodes [T] (bilinear interpolation cannot exceed it)
     std::string repo;
 
@@ -159,6 +160,7 @@ struct Ctx
                 RZMapFieldInput inp;
                 f >> inp;
                 rz_cms = std::make_shared<RZMapFieldParams>(inp);
+                rz_cms_input = inp;
                 for (std::size_t i = 0; i < inp.field_z.size(); ++i)
                     rz_cms_bmax = std::max(rz_cms_bmax, std::hypot(inp.field_z[i], inp.field_r[i]) / units::tesla);
             }
